@@ -227,8 +227,11 @@ def stub_path() -> None:
     if NATIVE:
         return
     from spil.sid.pathops import fs_resolver
+    from spil.sid import sid as sid_module
 
     fs_resolver.Path = StrPath
+    if hasattr(sid_module, "Path"):          # whatever PathSid.path does with the result stays on the string
+        sid_module.Path = StrPath
 
 
 _clearables = None
